@@ -360,6 +360,9 @@ func genAuthNeg(r *core.RNG, i int, proto string) *scen {
 	}
 	if proto == pHTTP {
 		sc.Retry = r.Pick(0, 0, 1, 2)
+		if sc.Retry > 0 && r.Chance(1, 3) {
+			sc.RetryBody = r.Pick(1, 4096, 65535, 65536, 65537, 100000, 1<<20)
+		}
 	}
 	sc.Hostile = r.Bool()
 	genDecision(r, sc)
